@@ -399,19 +399,3 @@ def add_then_remove_is_the_identity_on_a_model_that_already_has_an_edge_assembly
     assert unchanged(core, pool, snap), "the same assemblies at the same places with the same names and parameters as before the add"
 
 
-@lemma(gen=GEN, stubs=STUBS, overrides=OVERRIDES, timeout=200)
-def an_edge_copy_is_rotated_into_place(centre: int, nb: int, f0: int, f1: int, maxNum: int, p0: float, p1: float, p2: float, fl: float):
-    """OBSERVATION rather than a violation of the C13 text (which asks for "rotated into place" only for the full-core
-    conversion; the wave-3 brief listed it for edge copies as well): the copy placed on the 120-degree line is the
-    120-degree image of its source, but addEdgeAssemblies never calls rotate() - its blocks keep the source's orientation.
-    Native: after EdgeAssemblyChanger().addEdgeAssemblies(core) on the test reactor, source 003-012 and copy 003-004 both
-    have b.p.orientation == [0, 0, 0] (ThirdCoreHexToFullCoreChanger.convert gives its copies 120 / 240 degrees)."""
-    centre = choose(centre, 0, 1)
-    nb = choose(nb, 1, 2)
-    mk_defs(f0, f1)
-    core, r, pool, allA, lower, upper = build("third periodic", centre, 0, 1, 0, 0, nb, maxNum, p0, p1, p2, fl)
-    EdgeAssemblyChanger().addEdgeAssemblies(core)
-    cp = at(core, -1, 2)
-    assert cp is not None and cp is not lower[0]
-    for b in cp._children:
-        assert eq(b.rotation, 2 * math.pi / 3), "rotated by 120 degrees like the cell it sits in"
